@@ -149,7 +149,7 @@ def same(a, b):
 
 def apply_case(darsia, name, corr, neutral, kind, overwrite, inp):
     e = {"op": "apply", "corr": name, "kind": kind.split("-")[0], "subkind": kind, "overwrite": int(overwrite), "neutral": int(neutral), "raised": 0,
-         "same_object": 0, "input_unchanged": 0, "class_same": 0, "result_is_F": 0, "meta_ok": 0, "pixels_unchanged": 0}
+         "same_object": 0, "input_unchanged": 0, "class_same": 0, "result_is_F": 0, "meta_ok": 0, "pixels_unchanged": 0, "independent": 1}
     is_img = not isinstance(inp, np.ndarray)
     raw = (inp.img if is_img else inp).copy()
     meta0 = digest_meta(inp.metadata()) if is_img else None
@@ -171,6 +171,8 @@ def apply_case(darsia, name, corr, neutral, kind, overwrite, inp):
         return e
     res = out.img if is_img else out
     e["same_object"] = int(out is inp)
+    # without overwrite the result is a new image with pixel data of its own (work on it does not reach the input)
+    e["independent"] = int(overwrite or not is_img or not np.shares_memory(res, inp.img))
     e["class_same"] = int(type(out) is type(inp))
     now = inp.img if is_img else inp
     e["input_unchanged"] = int(now.shape == raw.shape and now.dtype == raw.dtype and np.array_equal(now, raw, equal_nan=True) and (not is_img or digest_meta(inp.metadata()) == meta0))
@@ -263,7 +265,7 @@ def run(ck, replay=None):
         ref = t.correct_array(ic.correct_array(arr.copy()))
         ok = same(img.img, ref)
         events.append({"tid": f"construct:{rep}", "op": "apply", "corr": "construction-order", "kind": "optical", "subkind": "optical", "overwrite": 1, "neutral": 0, "raised": 0,
-                       "same_object": 1, "input_unchanged": 1, "class_same": 1, "result_is_F": int(ok), "meta_ok": 1, "pixels_unchanged": 0})
+                       "same_object": 1, "input_unchanged": 1, "class_same": 1, "result_is_F": int(ok), "meta_ok": 1, "pixels_unchanged": 0, "independent": 1})
     # ---- growth beyond the listed properties: the un-keyed grid cache of CurvatureCorrection (spec/CorrectionCache.tla).
     # TLC enumerates every history of up to three image shapes and what the as-built rule returns for it; the real class is
     # driven along each history and has to behave as that rule (a conformance clause of the specification, reported as a
